@@ -39,6 +39,23 @@ func (k Keeper) RandomIndex(seed *big.Int, total, count int) []int {
 		return idx
 	}
 	for count > 0 {
+		if seed.Sign() == 0 {
+			// seed exhausted: every further draw would be 0, so take the lowest unused
+			// indices instead of looping forever
+			for i := 0; i < total && count > 0; i++ {
+				duplicate := false
+				for _, v := range idx {
+					if i == v {
+						duplicate = true
+					}
+				}
+				if !duplicate {
+					idx = append(idx, i)
+					count -= 1
+				}
+			}
+			break
+		}
 		rs := int(new(big.Int).Mod(seed, big.NewInt(int64(mod))).Int64()) % total
 		seed = new(big.Int).Div(seed, big.NewInt(10))
 		duplicate := false
